@@ -34,7 +34,8 @@ class Summary:
         self.f = ctx.func(RUN)
         self.sx = SymX(ctx, self.f, inline_depth=2).run()      # helper functions are judged by their content
         loops = [l for l in self.sx.loops.values() if l.kind == "for"]
-        self.outer = [l for l in loops if l.source[0] == "mcall" and l.source[2] == "items"]
+        self.outer = [l for l in loops if l.source[0] == "mcall" and l.source[2] == "items" and l.source[1] == ("v", self.f.params[0])] or \
+            [l for l in loops if l.source[0] == "mcall" and l.source[2] == "items"]
         self.inner = [l for l in loops if l.source[0] in ("list", "tup") and l.id in [i for o in self.outer for i in o.inner]]
         self.ok = len(self.outer) == 1 and len(self.inner) == 1 and self.inner[0].id in self.outer[0].inner
         if self.ok:
@@ -136,11 +137,40 @@ def r2_mode_reaches_solver(ctx, chk, rule="C12.2"):
         if flagp in kws:
             ok = kws[flagp] == mode
             detail = "%s=%s" % (flagp, show(kws[flagp]))
+    recognised = (not splat) or (splat and (splat[0][0] == "setitem" or (splat[0][0] == "call" and splat[0][1] in ("copy.deepcopy", "copy.copy", "dict") and splat[0][2]
+                                                                  and splat[0][2][0][0] in ("setitem", "idx", "elem", "v"))))
     if ok:
         chk.ok(rule, s.f.where(Li.node), "the game handed to StochasticGame carries prune_states = the mode loop variable (%s)" % detail)
+    elif not recognised:
+        # a home-made copy of the description: it must hand the solver the very values of the description
+        conv = _type_changing_copy(s, splat[0])
+        if conv:
+            chk.violation(rule, s.f.where(Li.node), "the copy of the game that is handed to the solver %s: the batch solves a different description than the one in the file "
+                          "(a transition entry written as a tuple is ill-formed when solved alone and becomes well-formed here)" % conv,
+                          expected="copy.deepcopy(game) or an equally faithful copy", found=show(splat[0])[:100], construct="run_games type-changing copy")
+        else:
+            chk.undecided(rule, s.f.where(Li.node), "the game handed to StochasticGame is `%s`: not recognised as a faithful copy of the description carrying the mode" % show(splat[0])[:100])
     else:
         chk.violation(rule, s.f.where(Li.node), "the solver's prune_states is not the mode of the entry being computed (%s)" % detail, expected="prune_states = mode", found=detail,
                       construct="run_games mode not passed")
+
+
+def _type_changing_copy(s, t):
+    """Text if the value term t (a dict built by a loop over game.items()) converts containers: list(x) / tuple(x) applied to values
+    that an isinstance test admits as the other type too."""
+    terms = list(C02._sub(t))
+    for L in s.sx.loops.values():
+        for u in list(L.update.values()) + ([L.elt] if getattr(L, "elt", None) else []):
+            terms += C02._sub(u)
+    for x in terms:
+        if x[0] == "ite" and x[1][0] == "call" and x[1][1] == "isinstance" and len(x[1][2]) == 2:
+            ty = x[1][2][1]
+            names = {y[1] for y in C02._sub(ty) if y[0] == "v"}
+            for branch in (x[2],):
+                if branch[0] == "call" and branch[1] in ("list", "tuple") and branch[2] and branch[2][0] == x[1][2][0] and (names - {branch[1]}) & {"list", "tuple"}:
+                    other = sorted((names - {branch[1]}) & {"list", "tuple"})[0]
+                    return "turns every %s among its entries into a %s (`%s`)" % (other, branch[1], show(branch)[:40])
+    return None
 
 
 def r3_isolation(ctx, chk, rec_t, rule="C12.3"):
